@@ -66,7 +66,9 @@ SCHEME_PROGRAM = '(define x (* 2 21))\nx'
 
 FAULT_KINDS = ['span-find', 'span-init', 'block-start', 'block-read', 'block-init']
 TRIGGERS = ['a `code` BOOM b `c`\n', '> x\n>\n> BOOM\n', '# h\n\nBOOM\n', '```py\ncode\n```\nBOOM\n', '<pre>\nx\n</pre>\nBOOM\n',
-            '- a\n\n  BOOM\n', '> - `q`\n>\n>   BOOM\n', '#\nBOOM\n', '> BOOM\n', '| a |\n|---|\n| BOOM `c` |\n']
+            '- a\n\n  BOOM\n', '> - `q`\n>\n>   BOOM\n', '#\nBOOM\n', '> BOOM\n', '| a |\n|---|\n| BOOM `c` |\n',
+            # the failure inside a container that has lazy continuation lines
+            '> a\nlazy\n>\n> BOOM\n', '> - a\nlazy\n>\n> BOOM `c`\n', '- a\nlazy\n\n  BOOM\n', '> > a\nlazy\n> BOOM\n']
 
 
 class Boom(Exception):
